@@ -187,6 +187,22 @@ TraceInit == /\ l = 1 /\ prog = [funcs |-> <<>>, rules |-> <<>>, rsets |-> <<>>]
              /\ rows = {} /\ active = {} /\ stack = <<>> /\ res = "ok" /\ tainted = FALSE
              /\ declf = {} /\ cur = 0 /\ other = NoOther /\ cmpst = TRUE
 
-TraceNext == TDecl \/ TCmd \/ TClone \/ TAbort
+\* Large databases (thousands of rows): only the raw invariants of C04 are evaluated, in
+\* linear / n log n time (no least-term renaming): every logged id canonical, keys unique,
+\* equal container contents share one id.  Events without a dump are skipped.
+RawContentsUnique(ev) ==
+  (~Has(ev, "cont")) \/ Cardinality({<<ev.cont[i].k, ev.cont[i].e>> : i \in 1 .. Len(ev.cont)}) = Len(ev.cont)
+TRaw ==
+  /\ l <= Len(Rec) /\ Rec[l].e = "rawcmd" /\ l' = l + 1
+  /\ LET ev == Rec[l] IN
+       /\ (ev.res = "panic") => Bad("panicked")
+       /\ (Has(ev, "expect") /\ ev.res # ev.expect) => Bad("scale-unexpected-outcome")
+       /\ Has(ev, "tabs") =>
+            /\ (~RawIdsCanonical(ev)) => Bad("raw-noncanonical-id")
+            /\ (~RawKeysUnique(ev)) => Bad("raw-duplicate-key")
+            /\ (RawIdsCanonical(ev) /\ ~RawContentsUnique(ev)) => Bad("raw-containers-not-hash-consed")
+  /\ UNCHANGED <<vars, tainted, declf, cur, other, cmpst>>
+
+TraceNext == TDecl \/ TCmd \/ TClone \/ TAbort \/ TRaw
 TraceSpec == TraceInit /\ [][TraceNext]_<<vars, l, tainted, declf, cur, other, cmpst>>
 =============================================================================
